@@ -38,7 +38,8 @@ head = ("%d confirmed changes (3 are the reverses of the fix: commits, %d come f
         "factory lookup was only observed in the pair's own asset order) and the checks were extended first (function-level family "
         "over look-alike denoms; reverse-order lookup in the snapshot).  Reported at first only as no-failing-input-found and now "
         "with a concrete input: C10-agent1 (mon_C10), C11-agent1 / C11-agent3 (router generator: richer recipient, round trips, "
-        "no-loss minimums), C20-agent3 (LP parked at the pair by a plain transfer).\n\n"
+        "no-loss minimums), C20-agent3 (LP parked at the pair by a plain transfer), C13-agent3 (routes whose final asset is also spent by an earlier hop are now driven "
+        "first, while the router is certainly empty, with no minimum; stray router balances only late and in half of the histories).\n\n"
         "| seeded id | change | needs | caught by | last regression |\n|---|---|---|---|---|\n" % (n, n - 3, det, len(reg), conc))
 p = os.path.join(ROOT, "DESIGN.md")
 s = open(p).read()
